@@ -66,7 +66,48 @@ def valid_xml_text(text):
     return True
 
 
+def check_cli(case):
+    """Child process under a non-UTF-8 locale (LC_ALL=C): the reports are well-formed whatever the locale of the
+    process, and carry the (non-ASCII) scenario names."""
+    res = CaseResult()
+    prog = runcheck.resolve_faults(case["program"])
+    normalize(prog)
+    env = {"LC_ALL": "C", "LANG": "C", "PYTHONUTF8": "0", "PYTHONCOERCECLOCALE": "0", "PYTHONIOENCODING": "utf-8"}
+    out = disk.run_cli(prog, extra_args=["--junit", "--junit-directory", "reports", "-f", "null"], paths=["features"],
+                       keep=True, env_extra=env)
+    try:
+        if out.returncode not in (0, 1):
+            res.fail("C16.cli.exit", "behave --junit under LC_ALL=C ended with exit code %r: %s"
+                     % (out.returncode, out.stderr[-400:]))
+            return res
+        files = sorted(glob.glob(os.path.join(out.project.root, "reports", "TESTS-*.xml")))
+        names = []
+        for path in files:
+            try:
+                dom = xml.dom.minidom.parse(path)
+            except xml.parsers.expat.ExpatError as e:
+                res.fail("C16.cli.not-well-formed", "%s written under LC_ALL=C is not well-formed XML: %s (%d bytes)"
+                         % (os.path.basename(path), e, os.path.getsize(path)))
+                return res
+            names += [n.getAttribute("name") for n in dom.getElementsByTagName("testcase")]
+        want = [i["name"] for _f, i in runcheck.instances(prog) if valid_xml_text(i["name"])]
+        missing = [n for n in want if n not in names]
+        show_skipped = (prog.get("cfg") or {}).get("show_skipped") is not False
+        if missing and show_skipped and not (prog.get("cfg") or {}).get("stop"):
+            res.fail("C16.cli.testcase-name", "scenarios %r have no testcase of that name in the reports (%r)"
+                     % (missing[:3], names[:6]))
+        res.label("cli:LC_ALL=C")
+        if any(ord(ch) > 127 for n in want for ch in n):
+            res.label("cli:non-ascii-names")
+            res.nontrivial = True
+    finally:
+        out.project.close()
+    return res
+
+
 def check(case):
+    if case.get("kind") == "cli":
+        return check_cli(case)
     res = CaseResult()
     prog = runcheck.resolve_faults(case["program"])
     normalize(prog)
@@ -267,12 +308,13 @@ def id_suffix(prog, feat):
 def explore(rec):
     quick = rec.tier == "quick"
     rec.hyp("junit-runs", case_st(), 6000 if quick else 80000)
+    rec.hyp("cli-non-utf8-locale", case_st().map(lambda c: dict(c, kind="cli")), 48 if quick else 600)
 
 
 def required_labels(tier):
     return ["hostile", "hostile-scenario-name", "failing-scenario", "no-skipped", "hook-fault", "raising-cleanup",
             "userdata:show_skipped_always", "userdata:show_scenarios", "reports:2", "layout:sub-directory",
-            "layout:equally-named-files", "layout:files-as-arguments"]
+            "layout:equally-named-files", "layout:files-as-arguments", "cli:LC_ALL=C", "cli:non-ascii-names"]
 
 
 KNOWN_PREDICATES = {}
